@@ -198,7 +198,7 @@ def run(ctx, spec=SPEC, cls_fn=cache_class, name="LRUCache", neg_consts=None, pr
     # 2. complete transition relation -> real code
     g, _ = graphwalk.emit_graph(spec, model.cfg_text(consts, view="View", action_constraint="Emit"), ctx, name)
     adapter = MappingAdapter(cls_fn())
-    stats = graphwalk.walk(g, adapter, ctx, name, sig_fn=sig_fn, paths_per_state=2)
+    stats = graphwalk.walk(g, adapter, ctx, name, sig_fn=sig_fn, paths_per_state=2, history_ops=("clear", "popitem"))
     ctx.note("walk %s" % stats)
     ctx.exhaustive = True
     # 3. long random histories on larger domains -> TLC
